@@ -7,7 +7,7 @@ TRUSTED = ["Lean 4.33 kernel; axioms: propext, Quot.sound at most (see coverage.
     "single-point faults are applied to the canonical text and mirrored on the skeleton by vlib/modgen.py faults()"]
 ASSUMPTIONS = ["the unfaulted module is valid"]
 RULE = ("every generated valid module crossed with single-point naming faults: a use of a global / type / comdat / metadata ID / local or label redirected to an undefined "
-        "name, a type / comdat / global / metadata / local definition duplicated, and the documented exception (undefined attribute group, expected to be ACCEPTED); "
+        "name, the label of a blockaddress constant (global initialiser, metadata field, module-level uselistorder) redirected to an undefined block, a type / comdat / global / metadata / local definition duplicated, and the documented exception (undefined attribute group, expected to be ACCEPTED); "
         "model and implementation must agree on accepted/rejected and the oracle demands error (never ok, never panic); non-trivial = distinct faulted module")
 
 
